@@ -138,6 +138,10 @@ func execC16(c *child.Ctx, k loggerCase, cj []byte) {
 	}
 	res := runAppProcess(c, filepath.Join(c.BinDir, "rtcmlogger"), []string{"-c", filepath.Join(dir, "cfg.json")}, in, ak, dir, extraEnv)
 	switch {
+	case res.StdinRefused:
+		c.Violate("pass-through-differs", fmt.Sprintf("rtcmlogger closed its standard input after %d of %d bytes while it kept running; %d bytes had been passed through (log_events %v)\n%s",
+			res.StdinRefusedAfter, len(in), len(res.Stdout), k.LogEvents, clipText(res.Stderr)), cj)
+		return
 	case res.TimedOut:
 		if allParked(res.Stderr, "/apps/rtcmlogger/") {
 			c.Violate("did-not-end", fmt.Sprintf("rtcmlogger had not ended 90 s after its whole input (%d bytes) was written and closed, and every goroutine of the program is blocked: it passed %d bytes through (%s)\n%s",
@@ -152,6 +156,13 @@ func execC16(c *child.Ctx, k loggerCase, cj []byte) {
 			sig = "data-race"
 		}
 		c.Violate(sig, fmt.Sprintf("rtcmlogger exited with status %d:\n%s", res.ExitCode, clipText(res.Stderr)), cj)
+		return
+	}
+	if k.SilenceMs >= 10000 && res.OutAtSilenceEnd < res.InBeforeSilence {
+		// "never ... delays indefinitely ... the pass-through": what had been read before
+		// the source fell silent must not wait for the source to speak again
+		c.Violate("pass-through-withheld", fmt.Sprintf("%d bytes were written to rtcmlogger's standard input (in chunks of %d) and then nothing for %d ms: at the end of the silence only %d of them had been passed through",
+			res.InBeforeSilence, k.Chunk, k.SilenceMs, res.OutAtSilenceEnd), cj)
 		return
 	}
 	if !bytes.Equal(res.Stdout, in) {
@@ -238,7 +249,20 @@ func monC16(c *child.Ctx, replay json.RawMessage) {
 			if k.SilenceMs >= 1000 {
 				k.SilenceMs = k.SilenceMs*10 + 500 // 12.5 s; thorough: up to 105 s
 			}
+			if sb%2 == 1 {
+				// whole blocks: what is read before the silence is exactly 1..7 times the
+				// program's 8096-byte block
+				k.Chunk = 8096 * r.Range(1, 3)
+				k.Size = k.Chunk*k.SilenceAfterChunks + r.Range(1, 9000)
+				k.GapUs = -20000
+			}
 			c.Count("runs_with_silent_input", 1)
+		}
+		if i == 2 && c.Batch == 0 || c.Thorough() && i%100 == 2 {
+			// a long session with the event log on: several megabytes through one process
+			k.Size, k.LogEvents, k.NoEventDir = r.Range(5000000, 7000000), true, false
+			k.Stdin, k.Chunk, k.GapUs, k.Hook, k.SilenceMs = "pipe", 0, 0, "", 0
+			c.Count("long_sessions_with_event_log", 1)
 		}
 		cj := c.BeginV(k)
 		execC16(c, k, cj)
